@@ -17,10 +17,13 @@ for i in ids:
         print(i,'PATCH DOES NOT APPLY'); meta['caught_by']=['patch no longer applies to /repo HEAD']; json.dump(meta,open(f'{d}/meta.json','w'),indent=1); continue
     subprocess.run(['git','-C','/repo','apply',f'{d}/patch.diff'],check=True)
     try:
-        env["GOVC_NO_EVIDENCE"]="1"; r=subprocess.run(cmds[prop],shell=True,cwd=V,capture_output=True,text=True,env=env)
-        viol=[l for l in r.stdout.split('\n') if l.startswith('VIOLATION')]
-        meta['caught_by']=[{"check":prop,"exit":r.returncode,"violations":[v.split(' obligation=')[1] if ' obligation=' in v else v for v in viol][:12]}]
-        print(i, 'exit',r.returncode, len(viol),'violation lines', (viol[0][:200] if viol else ''))
+        meta['caught_by']=[]
+        env["GOVC_NO_EVIDENCE"]="1"
+        for pr in props:
+            r=subprocess.run(cmds[pr],shell=True,cwd=V,capture_output=True,text=True,env=env)
+            viol=[l for l in r.stdout.split('\n') if l.startswith('VIOLATION')]
+            meta['caught_by'].append({"check":pr,"exit":r.returncode,"violations":[v.split(' obligation=')[1] if ' obligation=' in v else v for v in viol][:12]})
+            print(i, pr, 'exit',r.returncode, len(viol),'violation lines', (viol[0][:160] if viol else ''))
     finally:
         subprocess.run(['git','-C','/repo','checkout','--','.'],check=True)
     json.dump(meta,open(f'{d}/meta.json','w'),indent=1)
